@@ -2,13 +2,18 @@
    Statements only; every proof is [exact <lemma>].
 
    Vocabulary (Model/Store.v): [sop] = dump / load / can_load / remove / remove_many / list / cleanup /
-   pack / close+reopen; [spec_step] = the same operations on a finite map [key -> valid];
+   pack / close+reopen, plus [SPackCrash n] = `jug pack` killed inside update_pack() when the new pack file
+   is in place and only n of the result files it replaces are unlinked, followed by a new store object (the
+   keys of the other files are then in the pack AND files); [spec_step] = the same operations on a finite map [key -> valid];
    [fstep], [dstep], [rstep] = the bookkeeping of file_store (files + packed + pack file),
    dict_store (dict + backing file) and redis_store; [run step s ops] = final state and the list of
    results; [last_write hist k] = the value of the most recent operation of [hist] (newest first)
    that touched k; [touch op k old] = what [op] does to k.
    [res_agree op rc rs]: results are equal, except that key collections (list, remove_many) agree as
-   duplicate-free sets and update_pack's count has no counterpart in the map. *)
+   duplicate-free sets and update_pack's count has no counterpart in the map.
+   [res_agree_k op rc rs] (histories with killed packs): the same, except that list() may name a live key
+   twice (same set of keys) and cleanup() counts removed objects (pack entries + files), at least one per
+   removed key.  [f_reach] = states reachable without a killed pack, [f_reach_k] = reachable by any operations. *)
 From Coq Require Import List ZArith PArith Bool Permutation.
 From JugV Require Import Model.Store Proofs.StoreFacts.
 Import ListNotations.
@@ -23,13 +28,25 @@ Print Assumptions C06_spec_is_last_write.
 
 (* ---- file store: with and without compress_numpy, packed and unpacked, across reopen --------- *)
 Theorem C06_file_store_refines_map : forall (E : venv) (compress_numpy : bool) (ops : list sop),
+  (forall n, ~ In (SPackCrash n) ops) ->
   FInv (fst (run (fstep E) (f_init compress_numpy) ops)) /\
   (forall k, f_load (fst (run (fstep E) (f_init compress_numpy) ops)) k = aget k (fst (run spec_step [] ops))) /\
   all_agree res_agree ops (snd (run (fstep E) (f_init compress_numpy) ops)) (snd (run spec_step [] ops)).
-Proof. exact file_store_refines. Qed.
+Proof. exact (fun E c ops H => file_store_refines E c ops (proj2 (no_crashes_iff ops) H)). Qed.
 Print Assumptions C06_file_store_refines_map.
 
-(* loadable iff stored and not since removed or cleaned up; load returns the last value stored *)
+(* the same for every history, killed packs included: a key may then live in the pack and as a file at once
+   (with the same value in both places: FInvK), every load / can_load / remove / remove_many answer is still
+   exactly the map's, list() names exactly the live keys *)
+Theorem C06_file_store_refines_map_with_killed_packs : forall (E : venv) (compress_numpy : bool) (ops : list sop),
+  FInvK (fst (run (fstep E) (f_init compress_numpy) ops)) /\
+  (forall k, f_load (fst (run (fstep E) (f_init compress_numpy) ops)) k = aget k (fst (run spec_step [] ops))) /\
+  all_agree res_agree_k ops (snd (run (fstep E) (f_init compress_numpy) ops)) (snd (run spec_step [] ops)).
+Proof. exact file_store_refines_k. Qed.
+Print Assumptions C06_file_store_refines_map_with_killed_packs.
+
+(* loadable iff stored and not since removed or cleaned up; load returns the last value stored
+   (every history, killed packs included) *)
 Theorem C06_file_store_last_write : forall (E : venv) (compress_numpy : bool) (ops : list sop) (k : key),
   f_load (fst (run (fstep E) (f_init compress_numpy) ops)) k = last_write (rev ops) k /\
   (f_can_load (fst (run (fstep E) (f_init compress_numpy) ops)) k = true <-> last_write (rev ops) k <> None).
@@ -39,14 +56,14 @@ Print Assumptions C06_file_store_last_write.
 (* in every reachable state each operation changes what can be loaded exactly as [touch] says;
    in particular [touch SPack] and [touch SReopen] are the identity: packing or closing and
    reopening the store changes no answer *)
-Theorem C06_file_step_effect : forall (E : venv) (s : fstore) (op : sop) (k : key), f_reach E s ->
+Theorem C06_file_step_effect : forall (E : venv) (s : fstore) (op : sop) (k : key), f_reach_k E s ->
   f_load (fst (fstep E s op)) k = touch op k (f_load s k).
 Proof. exact file_step_effect. Qed.
 Print Assumptions C06_file_step_effect.
 
-Theorem C06_pack_and_reopen_change_nothing : forall (k : key) (old : option valid),
-  touch SPack k old = old /\ touch SReopen k old = old.
-Proof. exact (fun k old => conj eq_refl eq_refl). Qed.
+Theorem C06_pack_and_reopen_change_nothing : forall (k : key) (old : option valid) (n : nat),
+  touch SPack k old = old /\ touch SReopen k old = old /\ touch (SPackCrash n) k old = old.
+Proof. exact (fun k old n => conj eq_refl (conj eq_refl eq_refl)). Qed.
 Print Assumptions C06_pack_and_reopen_change_nothing.
 
 (* list() enumerates exactly the live keys, without duplicates (packed keys + file keys) *)
@@ -56,18 +73,33 @@ Theorem C06_file_list_exact : forall (E : venv) (s : fstore), f_reach E s ->
 Proof. exact file_list_exact. Qed.
 Print Assumptions C06_file_list_exact.
 
-(* remove reports truthfully whether something was removed, and afterwards the key is gone *)
-Theorem C06_file_remove_truthful : forall (E : venv) (s : fstore) (k : key), f_reach E s ->
+(* after a killed pack list() still names every live key and nothing else (a key in both places: twice) *)
+Theorem C06_file_list_complete_after_killed_pack : forall (E : venv) (s : fstore), f_reach_k E s ->
+  fst (fstep E s SList) = s /\
+  exists l, snd (fstep E s SList) = RKeys l /\ forall k, In k l <-> f_can_load s k = true.
+Proof. exact file_list_complete. Qed.
+Print Assumptions C06_file_list_complete_after_killed_pack.
+
+(* remove reports truthfully whether something was removed, and afterwards the key is gone - from the pack
+   AND from the files, in every reachable state (killed packs included) *)
+Theorem C06_file_remove_truthful : forall (E : venv) (s : fstore) (k : key), f_reach_k E s ->
   snd (fstep E s (SRemove k)) = RBool (f_can_load s k) /\
   f_can_load (fst (fstep E s (SRemove k))) k = false.
 Proof. exact file_remove_truthful. Qed.
 Print Assumptions C06_file_remove_truthful.
 
-Theorem C06_file_remove_many_truthful : forall (E : venv) (s : fstore) (ks : list key), f_reach E s ->
-  exists l, snd (fstep E s (SRemoveMany ks)) = RKeys l /\ NoDup l /\
-            forall k, In k l <-> In k ks /\ f_can_load s k = true.
+Theorem C06_file_remove_many_truthful : forall (E : venv) (s : fstore) (ks : list key), f_reach_k E s ->
+  (exists l, snd (fstep E s (SRemoveMany ks)) = RKeys l /\ NoDup l /\
+             forall k, In k l <-> In k ks /\ f_can_load s k = true) /\
+  (forall k, In k ks -> f_can_load (fst (fstep E s (SRemoveMany ks))) k = false).
 Proof. exact file_remove_many_truthful. Qed.
 Print Assumptions C06_file_remove_many_truthful.
+
+(* cleanup(active) leaves exactly the live keys that are active, wherever they are stored *)
+Theorem C06_file_cleanup_exact : forall (E : venv) (s : fstore) (active : list key) (k : key), f_reach_k E s ->
+  f_can_load (fst (fstep E s (SCleanup active))) k = kmem k active && f_can_load s k.
+Proof. exact file_cleanup_exact. Qed.
+Print Assumptions C06_file_cleanup_exact.
 
 (* ---- in-memory store, with its backing file (reopen allowed) or without (no reopen) ----------- *)
 Theorem C06_dict_store_refines_map : forall (backed : bool) (ops : list sop),
@@ -136,6 +168,14 @@ Theorem C06_redis_framing_roundtrip :
         (Some (redis_enc V A as_arr is_none pickle npsave deflate b64e v)) = Some v.
 Proof. exact redis_dec_enc. Qed.
 Print Assumptions C06_redis_framing_roundtrip.
+
+(* the state "key in the pack and a file" is reachable: dump 1, dump 2, `jug pack` killed after one unlink *)
+Example C06_key_in_both_places_reachable :
+  let E := {| isarr := fun _ => false; small_raw := fun _ => true; small_enc := fun _ => true |} in
+  let s := fst (run (fstep E) (f_init false) [SDump 1%positive 5%Z; SDump 2%positive 6%Z; SPackCrash 1]) in
+  f_reach_k E s /\ amem 2%positive (f_packed s) = true /\ amem 2%positive (f_files s) = true /\
+  amem 1%positive (f_packed s) = true /\ amem 1%positive (f_files s) = false.
+Proof. exact both_places_reachable. Qed.
 
 (* ---- non-vacuity ----------------------------------------------------------------------------------- *)
 (* (a) the codec hypotheses are satisfiable: a concrete toy codec meets all of them, and the round trip
